@@ -335,7 +335,8 @@ def case_threshold(test, n, sname, seed):
       return ['%s(n=%d, %s) returned %r although n is below the documented minimum '
               '(InsufficientDataError expected)' % (nm, n, sname, str(res)[:60])]
     vals = [res] if isinstance(res, (int, float)) else [p for _, p in res]
-    if nm in ('BlockFrequency', 'LongestRuns', 'Frequency') and n <= 1000000:
+    if nm in ('BlockFrequency', 'LongestRuns', 'Frequency') and (
+        n <= 300000 or (n <= 1100000 and sname in ('drbg', 'alt'))):
       e = rn.bits_of(v, n)
       if nm == 'BlockFrequency':
         m = 16
@@ -372,29 +373,30 @@ def _default_values(nm, e, n, res):
   """Value / shape comparison for the tests whose *default* parameter is chosen from n (the
   parameter ladders): which parameter must have been used follows from the documented rule,
   the value from the SP 800-22 transcription. Returns a message or None."""
-  if nm == 'Serial' and 8 <= n <= 70000:
+  if nm == 'Serial' and n >= 8:
     m_max = max(2, min(22, n.bit_length() - 4))
     d = _named(res)
     want = ['m=%d p-value%d' % (m, j) for m in range(2, m_max + 1) for j in (1, 2)]
     if sorted(d) != sorted(want):
       return 'returns results for %d values of m, 2.11.7 (m < log2(n) - 2) gives m = 2..%d' % (
           len(d) // 2, m_max)
-    for m in sorted({2, m_max}):
+    for m in (sorted({2, m_max}) if n <= 70000 else []):
       p1, p2, d1, d2 = rn.serial(e, m)
       for key, pe, st in (('m=%d p-value1' % m, p1, d1), ('m=%d p-value2' % m, p2, d2)):
         if st > 0 and pe is not None and not _close(d[key], pe, 1e-7):
           return '[%s] = %r; SP 800-22 gives %.12g' % (key, d[key], pe)
-  elif nm == 'ApproximateEntropy' and 8 <= n <= 70000:
+  elif nm == 'ApproximateEntropy' and n >= 8:
     bl = n.bit_length()
-    m_max = max(2, bl - 7) if n < 2**16 else bl - 8
+    m_max = (max(2, bl - 7) if n < 2**16 else bl - 8 if n < 2**20 else bl - 9 if n < 2**24
+             else min(22, bl - 10))
     d = _named(res)
     if sorted(d) != sorted('m=%d' % m for m in range(2, m_max + 1)):
       return 'returns %d results, the documented bound gives m = 2..%d' % (len(d), m_max)
-    for m in sorted({2, m_max}):
+    for m in (sorted({2, m_max}) if n <= 70000 else []):
       pe, _ = rn.apen(e, m)
       if pe is not None and not _close(d['m=%d' % m], pe, 1e-7):
         return '[m=%d] = %r; SP 800-22 gives %.12g' % (m, d['m=%d' % m], pe)
-  elif nm == 'NonOverlappingTemplateMatching' and 32 <= n <= 70000:
+  elif nm == 'NonOverlappingTemplateMatching' and n >= 32:
     bs = n // 8
     m = 10
     for bound, mm_ in ((64, 2), (256, 3), (1024, 4), (2048, 5), (4096, 6), (8192, 7),
@@ -406,7 +408,7 @@ def _default_values(nm, e, n, res):
     temps = [t for t in range(2**m) if rn.is_nonoverlapping(t, m)]
     if len(d) != len(temps):
       return 'returns %d results, %d templates of length %d expected' % (len(d), len(temps), m)
-    for t in (temps[0], temps[-1]):
+    for t in ((temps[0], temps[-1]) if n <= 70000 else ()):
       key = "template '%s'" % format(t, '0%db' % m)
       # the library forms every full block of n // 8 bits (9 blocks for n = 63 etc.) and uses
       # that count in the formula; which count is "right" below 64 bits is not asserted
@@ -444,7 +446,7 @@ def thresholds(tests, ns, seed):
 def _threshold_lengths():
   ts = {100, 128, 6272, 750000, 38 * 9, 38 * 1024, 387840, 904960, 2000, 102400, 32, 1032,
         16 * 100, 32 * 100, 64 * 100, 128 * 100, 20 * 100, 512, 2048, 8192, 16384, 32768,
-        65536, 131072, 262144}
+        65536, 131072, 262144, 2**20}
   ns = set()
   for t in ts:
     for d in (-2, -1, 0, 1, 2):
@@ -1020,7 +1022,11 @@ def plan(tier, seed):
                   weight=sum(small) * 10))
     heavy = {'Spectral', 'LinearComplexity[512]', 'LinearComplexity[10]', 'Serial',
              'ApproximateEntropy', 'NonOverlappingTemplateMatching'}
-    bb = big if thorough or nm == 'Universal' else [n for n in big if n < 400000]
+    bb = big if thorough else [n for n in big if n < 400000]
+    if nm == 'Universal' and not thorough:
+      bb += [n for n in big if abs(n - 904960) <= 2]  # second step of the 2.9.7 ladder
+    if nm == 'LongestRuns' and not thorough:
+      bb += [n for n in big if 749000 < n < 751000]  # third parameter set of 2.4.2
     if nm in heavy and not thorough:
       bb = [n for n in bb if n < 140000]
     for n in bb:
